@@ -107,6 +107,13 @@ class Exec(object):
             return out
         return then(s1) + orelse(s2)
 
+    def unsupported_path(self, st, why):
+        """this path leaves the accepted subset: it must be infeasible (obligation of kind 'subset';
+        if it is not discharged the run ends as STRUCTURE, never as a violation)"""
+        self.subset_obls = getattr(self, 'subset_obls', [])
+        self.subset_obls.append(('outside-subset: ' + why, list(st.pc), ''.join(st.trace)))
+        return []
+
     def unopt(self, v, st, fn):
         """use an Optional value where a non-None one is required (None -> TypeError)"""
         if isinstance(v, VOpt):
